@@ -131,8 +131,15 @@ def blocked_all(R, ro, rule):
             "is_blocked() can report 'blocked' without an uncomputed dependency", cfg.fmt_path(p) if p else None)
     # "not blocked" only after the whole list was examined: cut the loop's `done` edge
     targets = falsy + [cfg.exit]
-    p = cfg.find_path([cfg.entry], targets, N,
-                      keep_edge=lambda e: not (e.src == head.id and e.label == "done") and e.label != "ret")
+    flag_names = set(n.ast.value.id for n in falsy if n.ast.value is not None and isinstance(n.ast.value, ast.Name))
+
+    def really_falsy(node, known):
+        v = getattr(node.ast, "value", None) if node.kind == "stmt" else None
+        if isinstance(v, ast.Name) and known.get(v.id) is True:
+            return False      # `return flag` with flag == True on this path reports "blocked"
+        return True
+    p = cfg.find_path_flags([cfg.entry], targets, flag_names, N,
+                            keep_edge=lambda e: not (e.src == head.id and e.label == "done") and e.label != "ret", target_ok=really_falsy)
     # (ret edges lead to exit from return nodes; falsy return nodes themselves are targets)
     R.check(p is None, rule, key + ":false", site,
             "is_blocked() reports 'not blocked' only after every dependency has been examined",
@@ -142,7 +149,11 @@ def blocked_all(R, ro, rule):
     # and an uncomputed dependency always leads to True: from the uncomputed edge no path to loop head / falsy
     for g in kit.guard_edges_exist(cfg, unc):
         starts = [e.dst for e in cfg.out_edges(g.id, N) if e.label == unc(g)]
-        p = cfg.find_path(starts, falsy + [head, cfg.exit], N, cut_nodes=truthy)
+        p = cfg.find_path_flags(starts, falsy + [head], flag_names, N, cut_nodes=[t for t in truthy if isinstance(t.ast, ast.Return)],
+                                target_ok=really_falsy)
+        if p is None:
+            # falling off the end (implicit `return None`) without a return statement
+            p = cfg.find_path_flags(starts, [cfg.exit], flag_names, N, cut_nodes=rets)
         R.check(p is None, rule, key + ":uncomputed", site,
                 "an uncomputed dependency always makes is_blocked() return True",
                 "an uncomputed dependency can be skipped by is_blocked()", cfg.fmt_path(p) if p else None)
